@@ -26,7 +26,8 @@ Record refcall := mk_ref { r_nt : numty; r_ws : list value; r_pts : list (list v
 Inductive c_res := CRet (code : N) (arr : list N) | CAbort | CHang.
 
 Record case17 := mk17 {
-  k_entry : N;                 (* 0 rcb 1 rib 2 hilbert 3 greedy 4 karmarkar_karp 5 karmarkar_karp_complete 6 fiduccia_mattheyses *)
+  k_entry : N;                 (* 0 rcb 1 rib 2 hilbert 3 greedy 4 karmarkar_karp 5 karmarkar_karp_complete 6 fiduccia_mattheyses
+                                  7 adjncy_csr (structure check only) *)
   k_dim : N;
   k_points : data;
   k_weights : data;
@@ -67,11 +68,15 @@ Definition model_outcome (c : case17) : outcome :=
   | 3 => coupe_greedy (fun nt ws k s => oracle c nt ws [] [Some k] s) p0 (k_weights c) (prm 0%nat)
   | 4 => coupe_karmarkar_karp (fun nt ws k s => oracle c nt ws [] [Some k] s) p0 (k_weights c) (prm 0%nat)
   | 5 => coupe_karmarkar_karp_complete (fun nt ws k s => oracle c nt ws [] [Some k] s) p0 (k_weights c) (prm 0%nat)
-  | _ => coupe_fiduccia_mattheyses (fun adj nt ws a b i d s => oracle c nt ws [] [a; b; i; Some d] s) p0 (k_adj c) (k_weights c)
+  | 6 => coupe_fiduccia_mattheyses (fun adj nt ws a b i d s => oracle c nt ws [] [a; b; i; Some d] s) p0 (k_adj c) (k_weights c)
            (prm 0%nat) (prm 1%nat) (prm 2%nat) (prm 3%nat)
+  | _ =>
+    (* 7: coupe_adjncy_csr's structure check (cell 0 := 1 iff a matrix is returned) is not modelled; the
+       case is judged by prop_ok only (against sprs' own check) *)
+    match k_c c with CRet code arr => Returns COk (Some arr) | _ => UB end
   end.
 
-Definition is_fm (c : case17) : bool := 6 <=? k_entry c.
+Definition is_fm (c : case17) : bool := k_entry c =? 6.
 
 (* edge cut of a CSR graph under a partition (each edge is stored twice) *)
 Fixpoint row_cut (p : list N) (pi : N) (cols : list N) (vals : list value) : option Z :=
@@ -135,10 +140,8 @@ Definition prop17 (c : case17) : bool :=
   | CHang => match k_ref c with Some r => match r_res r with RRHang => true | _ => false end | None => false end
   | CRet code arr =>
     match argument_errors c with
-    | _ :: _ as acc =>
+    | (_ :: _) as acc =>
       existsb (N.eqb code) acc && list_eqb N.eqb arr (k_p0 c)
-      (* and, when the Rust API could be called on the same input, it reports an error as well *)
-      && match k_ref c with Some r => match r_res r with RROk _ => false | _ => true end | None => true end
     | [] =>
       match k_ref c with
       | None => false                      (* harness inconsistency: no reference and no documented argument error *)
